@@ -430,6 +430,7 @@ func (fr *Frame) execBlock(b *ssa.BasicBlock, st0 *State, reach0 string) {
 	}
 
 	// instructions
+	fr.curBlock = b
 	cur := &blockCtx{st: st, reach: reach}
 	for _, ins := range b.Instrs {
 		if _, ok := ins.(*ssa.Phi); ok {
@@ -493,6 +494,10 @@ func (fr *Frame) loopEnv(li *loopInfo, st *State, phiVal func(*ssa.Phi) Term, gh
 		for _, phi := range phisOf(li.header) {
 			if phi.Comment == name {
 				return phiVal(phi), goTy(phi.Type()), true
+			}
+			if name == "$i" && phi.Comment == "rangeindex" {
+				// number of completed iterations of a range-over-slice loop
+				return Term{"(+ " + phiVal(phi).S + " 1)", SInt}, mathInt, true
 			}
 		}
 		return fr.resolveLocal(name, li.header, st)
